@@ -467,14 +467,20 @@ func TestC04Wide(t *testing.T) {
 					if n%nshards != shard {
 						continue
 					}
-					if !thorough() && n%3 != 0 {
+					// (the quick tier runs a third of the combinations, chosen by a hash so that no dimension is left out)
+					if !thorough() && hash64(fmt.Sprint(w, g, format, entry))%3 != 0 {
 						continue
 					}
-					c := c04Wide{W: w, Grand: g[0], W2: g[1], Tail: g[2], Format: format, Entry: entry, Around: n%2 == 0}
-					col.eval(true, hash64(fmt.Sprint(c)), "format:"+format, "entry:"+entry, fmt.Sprintf("w>=1024:%v", w >= 1024))
-					col.sample(func() any { return c })
-					if msg := c04WideCheck(c); msg != "" {
-						violation(t, "C04", "c04w", c, msg)
+					for _, around := range []bool{false, true} {
+						if around && (format == "toml" || entry == "root") {
+							continue // single-root only
+						}
+						c := c04Wide{W: w, Grand: g[0], W2: g[1], Tail: g[2], Format: format, Entry: entry, Around: around}
+						col.eval(true, hash64(fmt.Sprint(c)), "format:"+format, "entry:"+entry, fmt.Sprintf("w>=1024:%v", w >= 1024), fmt.Sprintf("small-roots-around:%v", around))
+						col.sample(func() any { return c })
+						if msg := c04WideCheck(c); msg != "" {
+							violation(t, "C04", "c04w", c, msg)
+						}
 					}
 				}
 			}
